@@ -126,7 +126,7 @@ def legacy(vc):
     vc.check('post/each-connection-handed-back-once', sorted(returned, key=id) == sorted(conns, key=id))
 
 
-@harness('C20', 'set_keyspace_async-result', functions=['cassandra.connection.Connection.set_keyspace_async'])
+@harness('C20', 'set_keyspace_async-result', functions=['cassandra.connection.Connection.set_keyspace_async'], native='contracts.native.c20:replay_misc')
 def conn_result(vc):
     """ensures the connection's USE handler: a result message => the connection's keyspace becomes the new one and the callback gets
     no error; an invalid-request error => callback gets that error, keyspace unchanged; anything else => connection defuncted and
@@ -155,7 +155,7 @@ def conn_result(vc):
         vc.check('other/defuncted-and-reported', len(dead) == 1 and done[0] is dead[0] and conn.attrs['keyspace'] == 'old')
 
 
-@harness('C20', '_set_keyspace_completed', functions=[R.RF + '_set_keyspace_completed'])
+@harness('C20', '_set_keyspace_completed', functions=[R.RF + '_set_keyspace_completed'], native='contracts.native.c20:replay_misc')
 def completed(vc):
     """ensures the USE request succeeds iff no pool reported an error, otherwise fails with a ConnectionException"""
     from cassandra.connection import ConnectionException
@@ -168,7 +168,7 @@ def completed(vc):
     vc.check('post/outcome', len(comps) == 1 and (issubclass(exc_class(comps[0][1]), ConnectionException) if bad else comps[0] == ('result', None)))
 
 
-@harness('C20', 'new-pool-gets-session-keyspace', functions=['cassandra.pool.HostConnection.__init__'])
+@harness('C20', 'new-pool-gets-session-keyspace', functions=['cassandra.pool.HostConnection.__init__'], native='contracts.native.c20:replay_misc')
 def new_pool(vc):
     """ensures a pool created later opens its connection with the session's current keyspace selected before it is published"""
     from cassandra.pool import HostConnection
@@ -181,7 +181,7 @@ def new_pool(vc):
     vc.check('post/connection-opened-with-keyspace', c is not None and c.keyspace == 'current' and pool.attrs['_keyspace'] == 'current')
 
 
-@harness('C20', 'legacy-pool-new-connection', functions=['cassandra.pool.HostConnectionPool._add_conn_if_under_max'])
+@harness('C20', 'legacy-pool-new-connection', functions=['cassandra.pool.HostConnectionPool._add_conn_if_under_max'], native='contracts.native.c20:replay_legacy_add')
 def legacy_new_conn(vc):
     """ensures a connection the legacy pool opens later gets the session's CURRENT keyspace (the pool's cached one may be stale when
     the pool was empty during the switch) before it is published"""
